@@ -646,6 +646,9 @@ func flagSet(name string) bool {
 	return set
 }
 
+// extraReplays: replay functions of the added families; each returns false when the recorded case is not one of its own.
+var extraReplays []func(c *Ctx, raw json.RawMessage) bool
+
 func doReplay(path string) int {
 	b, err := os.ReadFile(path)
 	if err != nil {
@@ -671,7 +674,13 @@ func doReplay(path string) int {
 	c := newCtx(p, r.Tier, 0, 0, 1)
 	c.Deadline = time.Now().Add(time.Hour)
 	fmt.Printf("replaying %s key=%s\nrecorded: %s\n", r.Property, r.Key, r.What)
-	if !cliDiffReplay(c, r.Case) {
+	handled := cliDiffReplay(c, r.Case)
+	for _, f := range extraReplays {
+		if !handled {
+			handled = f(c, r.Case)
+		}
+	}
+	if !handled {
 		p.Replay(c, r.Case)
 	}
 	if len(c.viols) == 0 {
